@@ -212,7 +212,9 @@ def run(tier, seed, report):
         for i in range(n_cases):
             cfg = dict(depth=3, width=2, store_alg="SHA-256") if i % 2 == 0 else dict(
                 depth=rng.choice([1, 2, 4]), width=rng.choice([1, 2, 3]), store_alg=rng.choice(["MD5", "SHA-1", "SHA-384", "SHA-512"]))
-            A = impl.Real(contents, ns=NS, **cfg)
+            # the store's own metadata namespace: the documented default, or another one
+            ns = NS if rng.random() < 0.6 else "http://www.ns.test/v1"
+            A = impl.Real(contents, ns=ns, **cfg)
             try:
                 u = gen.Universe(rng, contents, store_alg=cfg["store_alg"])
                 u.kinds = ("str",)
@@ -223,11 +225,23 @@ def run(tier, seed, report):
                 u.formats = [None, "f1"]
                 w = {"store": 5, "store_data": 0.5, "tag": 0.5, "div": 0, "delete": 1, "retrieve": 0, "hex": 0, "smeta": 4,
                      "rmeta": 0, "dmeta": 0.5, "bad": 0}
-                for c in u.history(rng.choice([0, 2, 4, 6]), w):
+                # the first cases are directed: each retrieve verb on each kind of content, on both namespaces
+                directed = None
+                if i < 2 * len(u.toks) * 2:
+                    dt = u.toks[(i // 2) % len(u.toks)]
+                    directed = ("retrieveobject" if i % 2 == 0 else "retrievemetadata", dt)
+                    ns_d = NS if (i // (2 * len(u.toks))) == 0 else "http://www.ns.test/v1"
+                    if ns_d != ns:
+                        A.close()
+                        ns = ns_d
+                        A = impl.Real(contents, ns=ns, **cfg)
+                    A.run(store_object("p", ("ok", dt, "str", 0)))
+                    A.run(store_metadata("p", ("ok", dt, "str", 0), None))
+                for c in u.history(rng.choice([0, 2, 4, 6]) if directed is None else 0, w):
                     A.run(c)
                 rootB = os.path.join(A.base, "storeB")
                 shutil.copytree(A.root, rootB)
-                B = impl.Real(contents, ns=NS, base=A.base, root=rootB, **cfg)
+                B = impl.Real(contents, ns=ns, base=A.base, root=rootB, **cfg)
                 # ---- options
                 verbs = [rng.choice(VERBS)]
                 r = rng.random()
@@ -248,7 +262,7 @@ def run(tier, seed, report):
                     "checksum": rng.choice([None, None, ck, ck.upper(), "0" + ck[1:]]),
                     "checksum_algo": None,
                     "obj_size": rng.choice([None, None, str(n), str(n), str(n + 1), "abc", "0", "-1", " %d " % n, "1.5"]),
-                    "formatid": rng.choice([None, None, "f1", NS, "f 2"]),
+                    "formatid": rng.choice([None, None, "f1", ns, "f 2"]),
                 }
                 if o["checksum"] is not None and rng.random() < 0.85:
                     o["checksum_algo"] = a_sp
@@ -263,6 +277,10 @@ def run(tier, seed, report):
                 for k in list(o):
                     if k not in used and rng.random() < 0.8:
                         o[k] = None
+                if directed is not None:
+                    verbs, first = [directed[0]], directed[0]
+                    o = dict.fromkeys(o)
+                    o["pid"] = "p"
                 argv = [A.root]
                 flag = {"pid": "-pid", "path": "-path", "algo": "-algo", "checksum": "-checksum",
                         "checksum_algo": "-checksum_algo", "obj_size": "-obj_size", "formatid": "-formatid"}
@@ -273,9 +291,9 @@ def run(tier, seed, report):
                     argv.append("-" + v)
                 res, text, log = run_client(argv)
                 # ---- the corresponding API call, on the copy
-                exp = corresponding_call(verbs, o, NS, path_tok)
+                exp = corresponding_call(verbs, o, ns, path_tok)
                 dline = "dispatch %s %s %s %s %s %s %s %s %s" % (
-                    enc_str(NS), ",".join(verbs) or "-", opt_wire(o["pid"]),
+                    enc_str(ns), ",".join(verbs) or "-", opt_wire(o["pid"]),
                     "N" if o["path"] is None else path_tok[o["path"]], opt_wire(o["algo"]), opt_wire(o["checksum"]),
                     opt_wire(o["checksum_algo"]), opt_wire(o["obj_size"]), opt_wire(o["formatid"]))
                 mm = model.req(dline)
@@ -335,7 +353,7 @@ def run(tier, seed, report):
                 key = (first, tuple(sorted(k for k, v in o.items() if v is not None)), res.split(" ")[-1])
                 stats["distinct"].add(key)
                 stats["kinds"]["%s -> %s" % (first, res)] = stats["kinds"].get("%s -> %s" % (first, res), 0) + 1
-                payload = {"property": "C20", "kind": "client", "config": cfg, "argv": argv[1:], "client": res,
+                payload = {"property": "C20", "kind": "client", "config": dict(cfg, store_metadata_namespace=ns), "argv": argv[1:], "client": res,
                            "stdout": text[:400], "recorded": recorded, "expected": list(exp), "api": api_res, "model": mm}
                 if len(samples) < 3:
                     samples.append(payload)
